@@ -1,4 +1,6 @@
 import RsslVerif.Model.Names
+import RsslVerif.Model.NamesEmit
+import RsslVerif.Lemmas.NamesEmitWitness
 import RsslVerif.Gen.Reserved
 import RsslVerif.Driver.Util
 /-!
@@ -125,6 +127,213 @@ def reservedFor (t : String) : Option (List String) :=
   else if t == "m" then some RsslVerif.Gen.Reserved.msl
   else none
 
+/-! ## `C15.res <dx|vk|vkba|msl> <program>`: resources, cbuffers, methods, entry points and a pipeline
+
+    item := ns N item* end | st S member* [| method*] end | en E value* end | gl <s|c|g> NAME | rs KIND OPTS NAME
+          | cb NAME OPTS member* end | fn NAME PTYPES param* { stmt* } | ef <c|v|p> NAME param* { stmt* } | pl NAME F<k>[,F<j>] <d<k>|->
+-/
+namespace Res
+open RsslVerif.Model.NamesEmit
+
+structure RState where
+  nss : Array (Option Nat × String) := #[]
+  defs : Array Def := #[]
+  nStructs : Nat := 0
+  nEnums : Nat := 0
+  /-- (enum ordinal) of every value, numbered through all enums -/
+  valueEnum : Array Nat := #[]
+  nGlobals : Nat := 0
+  nFuncs : Nat := 0
+  nCbufs : Nat := 0
+  localNames : Array String := #[]
+  pipeline : Option (List Nat × Option Nat) := none
+
+def findNs (st : RState) (parent : Option Nat) (name : String) : Option Nat :=
+  (List.range st.nss.size).find? fun i => st.nss[i]! == (parent, name)
+
+def natAfter (c : Char) (s : String) : Option Nat :=
+  match s.toList with
+  | c' :: ds => if c' == c then (String.ofList ds).toNat? else none
+  | [] => none
+
+def pairAfter (c : Char) (s : String) : Option (Nat × Nat) :=
+  match s.toList with
+  | c' :: ds =>
+    if c' == c then
+      match (String.ofList ds).splitOn "." with
+      | [a, b] => match a.toNat?, b.toNat? with
+        | some x, some y => some (x, y)
+        | _, _ => none
+      | _ => none
+    else none
+  | [] => none
+
+/-- the `i`-th value of enum `e` in the numbering through all enums -/
+def valueOrd (st : RState) (e i : Nat) : Option Nat :=
+  let idx := (List.range st.valueEnum.size).filter fun v => st.valueEnum[v]! == e
+  idx[i]?
+
+def parseRef (st : RState) (r : String) : Ref :=
+  match natAfter 'G' r, natAfter 'F' r, natAfter 'L' r, natAfter 'S' r, natAfter 'E' r with
+  | some k, _, _, _, _ => .glob k
+  | _, some k, _, _, _ => .func k
+  | _, _, some k, _, _ => .loc k
+  | _, _, _, some k, _ => .structTy k
+  | _, _, _, _, some k => .enumTy k
+  | _, _, _, _, _ =>
+    match pairAfter 'V' r, pairAfter 'D' r with
+    | some (e, i), _ => match valueOrd st e i with
+      | some v => .enumVal v
+      | none => .nothing
+    | _, some (c, i) => .cbMember c i
+    | _, _ => .nothing
+
+/-- options: a<n> array, b bindless, g<k> bind group, s<k> element struct -/
+partial def parseOpts (cs : List Char) (o : ResOpts) : Option ResOpts :=
+  match cs with
+  | [] => some o
+  | c :: r =>
+    let ds := r.takeWhile Char.isDigit
+    let rest := r.dropWhile Char.isDigit
+    let n := (String.ofList ds).toNat?
+    match c, n with
+    | 'a', some _ => parseOpts rest { o with array := true }
+    | 'b', none => parseOpts rest o
+    | 'g', some k => parseOpts rest { o with group := some k }
+    | 's', some k => parseOpts rest { o with elem := some k }
+    | _, _ => none
+
+def opts? (s : String) : Option ResOpts := if s == "-" then some {} else parseOpts s.toList {}
+
+/-- statements up to the closing `}` of the function; nested blocks stay in the flat token list -/
+partial def parseBody (st : RState) (depth : Nat) (acc : Array BTok) : List String → Option (RState × Array BTok × List String)
+  | "}" :: r => if depth == 0 then some (st, acc, r) else parseBody st (depth - 1) (acc.push .cl) r
+  | "{" :: r => parseBody st (depth + 1) (acc.push .op) r
+  | "lv" :: n :: r => parseBody { st with localNames := st.localNames.push n } depth (acc.push (.lv st.localNames.size)) r
+  | "use" :: u :: r => parseBody st depth (acc.push (.use (parseRef st u))) r
+  | _ => none
+
+def splitAtBar (xs : List String) : List String × List String :=
+  (xs.takeWhile (· ≠ "|"), (xs.dropWhile (· ≠ "|")).drop 1)
+
+partial def parseItems (st : RState) (cur : Option Nat) (top : Bool) : List String → Option (RState × List String)
+  | [] => if top then some (st, []) else none
+  | "end" :: r => if top then none else some (st, r)
+  | "ns" :: n :: r =>
+    let (st1, id) := match findNs st cur n with
+      | some i => (st, i)
+      | none => ({ st with nss := st.nss.push (cur, n) }, st.nss.size)
+    match parseItems st1 (some id) false r with
+    | some (st2, r2) => parseItems st2 cur top r2
+    | none => none
+  | "st" :: n :: r =>
+    let (ms, fs) := splitAtBar (takeToEnd r)
+    let methods := (List.range fs.length).map fun i => (st.nFuncs + i, fs.getD i "")
+    let d : Def := ⟨cur, .struct st.nStructs n ms methods⟩
+    parseItems { st with nStructs := st.nStructs + 1, nFuncs := st.nFuncs + fs.length, defs := st.defs.push d }
+      cur top (skipToEnd r)
+  | "en" :: n :: r =>
+    let vs := takeToEnd r
+    let v0 := st.valueEnum.size
+    let d : Def := ⟨cur, .enum st.nEnums n ((List.range vs.length).map fun i => (v0 + i, vs.getD i ""))⟩
+    parseItems { st with nEnums := st.nEnums + 1, valueEnum := st.valueEnum ++ (vs.map fun _ => st.nEnums).toArray,
+                         defs := st.defs.push d } cur top (skipToEnd r)
+  | "gl" :: k :: n :: r =>
+    let d : Def := ⟨cur, .glob st.nGlobals n (k.toList.headD 's')⟩
+    parseItems { st with nGlobals := st.nGlobals + 1, defs := st.defs.push d } cur top r
+  | "rs" :: kind :: o :: n :: r =>
+    match opts? o with
+    | some ro =>
+      let d : Def := ⟨cur, .res st.nGlobals n kind ro⟩
+      parseItems { st with nGlobals := st.nGlobals + 1, defs := st.defs.push d } cur top r
+    | none => none
+  | "cb" :: n :: o :: r =>
+    match opts? o with
+    | some ro =>
+      let d : Def := ⟨cur, .cbuf st.nCbufs n ro.group (takeToEnd r)⟩
+      parseItems { st with nCbufs := st.nCbufs + 1, defs := st.defs.push d } cur top (skipToEnd r)
+    | none => none
+  | "fn" :: n :: pt :: r =>
+    let np := if pt == "-" then 0 else pt.length
+    let params := r.take np
+    match r.drop np with
+    | "{" :: body =>
+      let ord := st.nFuncs
+      let l0 := st.localNames.size
+      let st1 := { st with nFuncs := st.nFuncs + 1, localNames := st.localNames ++ params.toArray }
+      match parseBody st1 0 #[] body with
+      | some (st2, toks, r2) =>
+        let d : Def := ⟨cur, .func ord n ((List.range np).map (· + l0)) toks.toList none⟩
+        parseItems { st2 with defs := st2.defs.push d } cur top r2
+      | none => none
+    | _ => none
+  | "ef" :: k :: n :: r =>
+    let np := if k == "v" then 2 else 1
+    let params := r.take np
+    match r.drop np with
+    | "{" :: body =>
+      let ord := st.nFuncs
+      let l0 := st.localNames.size
+      let st1 := { st with nFuncs := st.nFuncs + 1, localNames := st.localNames ++ params.toArray }
+      match parseBody st1 0 #[] body with
+      | some (st2, toks, r2) =>
+        let d : Def := ⟨cur, .func ord n ((List.range np).map (· + l0)) toks.toList (some (k.toList.headD 'c'))⟩
+        parseItems { st2 with defs := st2.defs.push d } cur top r2
+      | none => none
+    | _ => none
+  | "pl" :: _ :: fs :: d :: r =>
+    match sequenceOpt ((fs.splitOn ",").map (natAfter 'F')) with
+    | some es =>
+      let dg := if d == "-" then none else natAfter 'd' d
+      parseItems { st with pipeline := some (es, dg) } cur top r
+    | none => none
+  | _ => none
+
+def toProgram (st : RState) : Program :=
+  { nss := st.nss.toList, defs := st.defs.toList, localNames := st.localNames.toList, pipeline := st.pipeline }
+
+def parseProgram (s : String) : Option Program :=
+  let toks := (s.splitOn " ").filter (· ≠ "")
+  match parseItems {} none true toks with
+  | some (st, []) => some (toProgram st)
+  | _ => none
+
+def target? : String → Option Target
+  | "dx" => some .dx
+  | "vk" => some .vk
+  | "vkba" => some .vkba
+  | "msl" => some .msl
+  | _ => none
+
+def answer (t : Target) (p : Program) : String :=
+  if !supported p then "unsupported: vertex / pixel pipelines are outside the model" else
+  let reserved := if t.isMsl then RsslVerif.Gen.Reserved.msl else RsslVerif.Gen.Reserved.hlsl
+  match build reserved (namesInput t p) with
+  | .error e => e
+  | .ok names =>
+    " ".intercalate ([showNames names, "|refl"] ++
+      (reflection t names p).map (fun r => toString r.1 ++ ":" ++ r.2) ++
+      ["|entry"] ++ entryNames t names p ++ ["|out", " ".intercalate ((emit t names p).map render)])
+
+/-- the programs of `Lemmas/NamesEmitWitness.lean` by name (the check compares their answer with the answer for the
+corpus request that is the same program written as a descriptor) -/
+def witness? : String → Option Program
+  | "pMember" => some RsslVerif.Lemmas.NamesEmitWitness.pMember
+  | "pCbuffer" => some RsslVerif.Lemmas.NamesEmitWitness.pCbuffer
+  | "pCbufferNs" => some RsslVerif.Lemmas.NamesEmitWitness.pCbufferNs
+  | "pGenerated" => some RsslVerif.Lemmas.NamesEmitWitness.pGenerated
+  | "pLocalType" => some RsslVerif.Lemmas.NamesEmitWitness.pLocalType
+  | "pWrapper" => some RsslVerif.Lemmas.NamesEmitWitness.pWrapper
+  | "pThreaded" => some RsslVerif.Lemmas.NamesEmitWitness.pThreaded
+  | "pInline" => some RsslVerif.Lemmas.NamesEmitWitness.pInline
+  | "pRelative" => some RsslVerif.Lemmas.NamesEmitWitness.pRelative
+  | "pMethods" => some RsslVerif.Lemmas.NamesEmitWitness.pMethods
+  | "pMemberMethod" => some RsslVerif.Lemmas.NamesEmitWitness.pMemberMethod
+  | "pGood" => some RsslVerif.Lemmas.NamesEmitWitness.pGood
+  | _ => none
+
+end Res
+
 def handle (op : String) (args : List String) : String :=
   match op, args with
   | "C15.names", [t, prog] =>
@@ -134,6 +343,15 @@ def handle (op : String) (args : List String) : String :=
       | .ok names => showNames names
       | .error e => e
     | _, _ => "bad-request"
+  | "C15.res", [t, prog] =>
+    match Res.target? t, Res.parseProgram prog with
+    | some tg, some p => Res.answer tg p
+    | _, _ => "bad-request"
+  | "C15.witness", [name, t, prog] =>
+    -- is the named Lean term the program this descriptor denotes?
+    match Res.witness? name, Res.target? t, Res.parseProgram prog with
+    | some w, some tg, some p => if w == p then Res.answer tg w else "witness-differs-from-descriptor " ++ Res.answer tg w
+    | _, _, _ => "bad-request"
   | _, _ => "unsupported-op"
 
 end RsslVerif.Driver.C15
